@@ -819,6 +819,27 @@ void gen_c14(Gen &g) {
     gi.m.swap = (o / 2) & 1;
     gi.m.nobase = o & 1;
   }
+  if (r.chance(1, 5)) {
+    // the instance had chunk fitting on earlier and has it off now ("on an instance without chunk fitting enabled"):
+    // whatever size was stored then is not the boundary to count against
+    Op on = g.mk(OP_CHUNK, 0);
+    on.c = r.range(2, 48);
+    t.ops.push_back(on);
+    if (r.coin()) {
+      Op a = g.mk(OP_ASM, 0);
+      a.lines = gen_program(r, (int)r.range(1, 5), 0, -1);
+      t.ops.push_back(a);
+      long end = 0;
+      if (walk_expect(gi.m, a.lines, M_FIT, on.c, gi.m.offset, &end, nullptr, nullptr) == FR_NONE) {
+        gi.m.offset = end;
+        gi.m.hi = std::max(gi.m.hi, end);
+      } else
+        gi.m.offset_unspec = true;
+    }
+    Op off = g.mk(OP_CHUNK, 0);
+    off.c = r.range(-1, 1);
+    t.ops.push_back(off);
+  }
   // a file for the file entry point
   int nfiles = 0;
   int ncalls = (int)r.geom(1, 10, 4);
@@ -1366,9 +1387,10 @@ void gen_c19(Gen &g) {
       path = "/sim/in" + std::to_string(r.below((uint64_t)nfiles)) + ".asm";
     Op a = g.mk(r.chance(1, 3) ? OP_COUNT_FILE : OP_ASM_FILE, 0);
     a.path = path;
-    if (a.kind == OP_COUNT_FILE)
+    if (a.kind == OP_COUNT_FILE) {
       a.c = r.chance(1, 8) ? r.range(-1, 1) : r.range(2, 64);
-    else
+      a.on = r.chance(1, 10);  // no place for the count: the file entry point still has to do what the string entry point does
+    } else
       a.alias = r.chance(1, 8);
     if (r.chance(1, 4)) {
       // legal behaviour of read(2) that a loader has to cope with: short counts and interruptions (not refusals)
@@ -1418,6 +1440,11 @@ void gen_c17(Gen &g) {
   // input files
   FileSpec f;
   f.path = "/sim/prog.asm";
+  if (r.chance(1, 6)) {
+    // a path about as long as a path can be: whatever is done with the name when a call on it is refused
+    static const long lens[] = {260, 1000, 4000, 4064, 4090, 4095};
+    f.path = long_path(p.world, lens[r.below(6)], "program_text_");
+  }
   f.data = file_of_size(r, r.chance(1, 3) ? 4096 * r.range(1, 2) + r.range(-1, 1) : r.range(10, 3000), r.coin(), false);
   p.world.files.push_back(f);
   bool second = r.coin();
